@@ -270,6 +270,9 @@ func (e *Engine) finishCall(st *State, call *ast.CallExpr, fn *types.Func, args 
 				if pn != mp || i >= len(call.Args) {
 					continue
 				}
+				if e.ArgOwnership && !e.ownedArgument(call.Args[i]) {
+					e.oblige(st, "safety", "mutated-argument-owned("+key+", "+describe(call.Args[i], e.Fset)+")", call.Args[i].Pos(), smt.False)
+				}
 				nv := Val{e.Fresh("final!"+mp, args[i].T.Sort), args[i].Ty}
 				finals[mp] = nv
 				finalTargets = append(finalTargets, struct {
@@ -482,6 +485,7 @@ func (e *Engine) evalBuiltin(st *State, call *ast.CallExpr, name string) ([]Val,
 		if err != nil {
 			return nil, err
 		}
+		e.inPlaceWrite(st, call.Args[0], call.Pos())
 		if err := e.assign(st, call.Args[0], Val{smt.App(smt.V, "m_del", m.T, Box(k.T)), m.Ty}); err != nil {
 			return nil, err
 		}
